@@ -374,7 +374,7 @@ func runCoLua(src string) (toks []string, crash string) {
 		return 0
 	}))
 	L.SetGlobal("hostid", L.NewFunction(func(L *lua.LState) int { return L.GetTop() }))
-	ctx, cancel := context.WithTimeout(context.Background(), 5*time.Second)
+	ctx, cancel := context.WithTimeout(context.Background(), 45*time.Second)
 	defer cancel()
 	L.SetContext(ctx)
 	defer func() {
@@ -661,7 +661,7 @@ func execCoAPI(ops []Op) []string {
 		}
 		return L.Yield(vals...)
 	}))
-	ctx, cancel := context.WithTimeout(context.Background(), 5*time.Second)
+	ctx, cancel := context.WithTimeout(context.Background(), 45*time.Second)
 	defer cancel()
 	L.SetContext(ctx)
 	if err := L.DoString(src); err != nil {
